@@ -22,8 +22,8 @@ func init() {
 			"(work units in simulated time; polls, blocks on or ignores its stop signal; returns nil or an error) whose completion instant is placed relative to the deadline by the seed; " +
 			"enumerated part: completion offsets in [-2ms,+2ms] around the deadline (quick: 4us steps, thorough: 1us steps, plus +-1ns..+-100ns) x runner x action behaviour; " +
 			"non-trivial = the action was still running at, or finished within 2ms of, the deadline / cancellation, or Parallelise saw an error; distinct = distinct (configuration, result, instants) digest",
-		Real: []string{"utils/parallelisation parallelisation.go (RunActionWithTimeout, RunActionWithTimeoutAndContext, RunActionWithTimeoutAndCancelStore, RunActionWithParallelCheck, Parallelise), cancel_functions.go"},
-		Stub: []string{"time: testing/synctest fake clock (completion instants are exact; equal instants are excluded by 1ns because Go's select picks at random among ready cases)", "the action: harness state machine", "the 1..16 busy goroutines of the quantifier: not reproduced, load only moves completion instants which are swept directly"},
+		Real:        []string{"utils/parallelisation parallelisation.go (RunActionWithTimeout, RunActionWithTimeoutAndContext, RunActionWithTimeoutAndCancelStore, RunActionWithParallelCheck, Parallelise), cancel_functions.go"},
+		Stub:        []string{"time: testing/synctest fake clock (completion instants are exact; equal instants are excluded by 1ns because Go's select picks at random among ready cases)", "the action: harness state machine", "the 1..16 busy goroutines of the quantifier: not reproduced, load only moves completion instants which are swept directly"},
 		Assumptions: []string{"built with go1.26.8 (testing/synctest)", "go-deadlock detection disabled", "the concurrent Register/Cancel part of the property is checked by the race-engine rounds (C12 cancel store in engine 'race')"},
 	})
 }
@@ -276,7 +276,9 @@ func runC12(rc *RunCtx) {
 	}
 	res.Steps = 1
 	res.SimNanos = int64(runReturn)
-	sig := func(what string) string { return fmt.Sprintf("%s|runner=%s|action=%s", what, c12RunnerName(runner), c12KindName(kind)) }
+	sig := func(what string) string {
+		return fmt.Sprintf("%s|runner=%s|action=%s", what, c12RunnerName(runner), c12KindName(kind))
+	}
 	// (c) never blocks
 	if dl != "" || runReturn < 0 {
 		res.Violate("runner-blocked", sig("blocked-for-ever"), fmt.Sprintf("%s: the runner never returned (%s); action returned at %v, saw its signal at %v", res.Config, dl, obs.actReturn, obs.sawSignal))
